@@ -251,6 +251,9 @@ AfterMerge(cs0, g, e, oldRecEpoch, c, isSelfUpd) ==
              cs3 == IF isSelfUpd THEN [cs2 EXCEPT !.g[g].rec.su = FALSE] ELSE cs2
          IN  Ret(SetProc(cs3, e, "processed_commit", g, Cur(cs3, g)), "Commit")
 
+\* the id a rumor is stored under: recomputed from its content, unless the (fixed) defect of trusting a pre-set id is on
+StoreKey(m) == IF "RumorIdTrusted" \in Dev /\ m.preset # "" THEN m.preset ELSE m.id
+
 \* A: application message accepted by MLS
 ProcApp(cs, c, e, g, recEpoch, nm) ==
     LET E    == ev[e]
@@ -259,10 +262,10 @@ ProcApp(cs, c, e, g, recEpoch, nm) ==
     IF m.claimed # E.author THEN FailUnprocessable(cs, e, g, recEpoch)   \* AuthorMismatch
     ELSE LET filed == IF "AppFiledUnderReceiverEpoch" \in Dev THEN cur ELSE EpochOf(g, E.parent)
              rowm  == [author |-> m.claimed, state |-> "processed", epoch |-> filed, w |-> e,
-                       content |-> m.content, ca |-> m.ca, pa |-> nm.now, idr |-> m.idr]
-             cs1   == [cs EXCEPT !.msgs = (<<g, m.id>> :> rowm) @@ @]
+                       content |-> m.content, ca |-> m.ca, pa |-> nm.now, idr |-> m.idr, idok |-> StoreKey(m) = m.id]
+             cs1   == [cs EXCEPT !.msgs = (<<g, StoreKey(m)>> :> rowm) @@ @]
              cs2   == SetProc(cs1, e, "processed", g, filed)
-         IN  Ret(UpdateLast(cs2, g, m.id, rowm), "App")
+         IN  Ret(UpdateLast(cs2, g, StoreKey(m), rowm), "App")
 
 \* P: proposal accepted by MLS
 ProcProposal(cs, c, e, g, recEpoch, nm) ==
@@ -308,7 +311,7 @@ ProcOwnEcho(cs, c, e, g) ==
     LET r == ProcOf(cs, e) IN
     CASE r.state = "none" -> Ret(cs, "Err")
       [] r.state \in {"created", "retryable"} ->
-            LET mk == <<g, ev[e].msg.id>> IN
+            LET mk == <<g, StoreKey(ev[e].msg)>> IN
             IF ev[e].kind = "app" /\ mk \in DOMAIN cs.msgs
             THEN Ret(SetProc([cs EXCEPT !.msgs[mk].state = "processed"], e, "processed", r.g, r.epoch), "App")
             ELSE IF r.state = "created" THEN Ret(cs, "Err") ELSE Ret(cs, "Unprocessable")
@@ -486,25 +489,29 @@ NewCommit(c, g, kind, arg, nm) ==
      ts |-> nm.ts, rank |-> nm.rank, tag |-> gs.rec.data.nid, eff |-> eff, refs |-> P, gen |-> gs.sentH,
      result |-> ApplyEff(GS(g, gs.chain), eff, P)]
 
-CommitAllowed(c, g, kind, arg) ==
+\* raw: the commit is built directly with the MLS library, bypassing mdk's sender-side admin check
+CommitAllowedX(c, g, kind, arg, raw) ==
     LET s == GS(g, cl[c][g].chain) IN
     /\ c \in s.members
     /\ c \notin PropRemoves(cl[c][g].props)      \* a committer cannot commit its own removal
-    /\ kind # "self_update" => c \in s.admins
+    /\ (kind # "self_update" /\ ~raw) => c \in s.admins
     /\ kind = "remove" => arg # {} /\ arg \subseteq s.members /\ c \notin arg
     /\ kind = "add" => arg # {} /\ arg \cap s.members = {}
-    /\ kind = "admins" => arg # {} /\ arg \subseteq s.members
+    /\ kind = "admins" => arg # {} /\ (raw \/ arg \subseteq s.members)
+CommitAllowed(c, g, kind, arg) == CommitAllowedX(c, g, kind, arg, FALSE)
 
 \* wn: function from each added user to the name of the welcome produced for it
-DoCommit(c, g, kind, arg, nm, wn) ==
+DoCommitX(c, g, kind, arg, nm, wn, raw) ==
     /\ CanCommit(c, g)
-    /\ CommitAllowed(c, g, kind, arg)
+    /\ CommitAllowedX(c, g, kind, arg, raw)
     /\ nm.name \notin DOMAIN ev
     /\ LET E == NewCommit(c, g, kind, arg, nm)
            cs0 == CS(c)
            cs1 == [cs0 EXCEPT !.g[g] = PutSecret(@, EpochOf(g, @.chain), @.chain),   \* build_message_event exports
                               !.g[g].pend = nm.name, !.out = <<E>>, !.g[g].sentH = @ + 1]
-           cs2 == [cs1 EXCEPT !.proc = (nm.name :> [state |-> "processed_commit", epoch |-> EpochOf(g, cl[c][g].chain), g |-> g]) @@ @]
+           \* (mdk records its own commit as ProcessedCommit; a commit built with the raw MLS library leaves no record)
+           cs2 == IF raw THEN cs1
+                  ELSE [cs1 EXCEPT !.proc = (nm.name :> [state |-> "processed_commit", epoch |-> EpochOf(g, cl[c][g].chain), g |-> g]) @@ @]
        IN /\ Install(c, cs2)
           /\ wl' = IF kind = "add"
                     THEN wl @@ [w \in {wn[u] : u \in arg} |->
@@ -512,6 +519,7 @@ DoCommit(c, g, kind, arg, nm, wn) ==
                                    commit |-> nm.name, inviter |-> c]]
                     ELSE wl
     /\ UNCHANGED <<ginfo, withdrawn, welc, pwelc, hist>>
+DoCommit(c, g, kind, arg, nm, wn) == DoCommitX(c, g, kind, arg, nm, wn, FALSE)
 
 \* merge_pending_commit: no snapshot, no exporter secret, no dedup record.
 \* Without a pending commit it is a no-op that still re-syncs the record.
@@ -546,12 +554,12 @@ SendMessage(c, g, nm, m) ==
            E == [name |-> nm.name, kind |-> "app", g |-> g, author |-> c, parent |-> gs.chain,
                  ts |-> nm.ts, rank |-> nm.rank, tag |-> gs.rec.data.nid, msg |-> m, gen |-> gs.sentA]
            rowm == [author |-> m.claimed, state |-> "created", epoch |-> cur, w |-> nm.name,
-                    content |-> m.content, ca |-> m.ca, pa |-> nm.now, idr |-> m.idr]
+                    content |-> m.content, ca |-> m.ca, pa |-> nm.now, idr |-> m.idr, idok |-> StoreKey(m) = m.id]
            cs0 == CS(c)
            cs1 == [cs0 EXCEPT !.g[g] = PutSecret(@, cur, gs.chain), !.out = <<E>>, !.g[g].sentA = @ + 1,
-                              !.msgs = (<<g, m.id>> :> rowm) @@ @]
+                              !.msgs = (<<g, StoreKey(m)>> :> rowm) @@ @]
            cs2 == SetProc(cs1, nm.name, "created", g, cur)
-       IN  Install(c, UpdateLast(cs2, g, m.id, rowm))
+       IN  Install(c, UpdateLast(cs2, g, StoreKey(m), rowm))
     /\ UNCHANGED <<ginfo, withdrawn, wl, welc, pwelc, hist>>
 
 \* leave_group: a self-remove proposal (recorded with state ProcessedCommit, as the code does)
@@ -625,6 +633,20 @@ DeclineWelcome(c, w) ==
        /\ welc' = [welc EXCEPT ![c][w] = "declined"]
        /\ hist' = [hist EXCEPT !.wreset = IF cl[c][g].mls # "none" THEN @ \cup {<<c, g>>} ELSE @]
     /\ UNCHANGED <<ginfo, ev, proc, msgs, snapq, hyd, withdrawn, wl, pwelc>>
+
+\* a member proposes the removal of another member directly with the MLS library (mdk has no API for it)
+ProposeRemove(c, g, nm, target) ==
+    /\ CanLeave(c, g) /\ nm.name \notin DOMAIN ev
+    /\ target \in GS(g, cl[c][g].chain).members /\ target # c
+    /\ LET gs == cl[c][g]
+           cur == EpochOf(g, gs.chain)
+           E == [name |-> nm.name, kind |-> "prop", g |-> g, author |-> c, parent |-> gs.chain,
+                 ts |-> nm.ts, rank |-> nm.rank, tag |-> gs.rec.data.nid, pkind |-> "remove", target |-> target, gen |-> gs.sentH]
+           cs0 == CS(c)
+           cs1 == [cs0 EXCEPT !.out = <<E>>, !.g[g].sentH = @ + 1,
+                              !.g[g].props = @ \cup {[a |-> c, k |-> "remove", t |-> target]}]
+       IN  Install(c, cs1)
+    /\ UNCHANGED <<ginfo, withdrawn, wl, welc, pwelc, hist>>
 
 \* a hostile or malformed wrapper event appears on the relays (built with knowledge of client c's view of g)
 PublishJunk(c, g, nm, class, tag, base, par) ==
@@ -794,6 +816,7 @@ C02_Ex(pr) ==
     \A g \in Groups : Created(g) => \A e \in AppEvents(g), c \in Clients :
        LET k == <<g, ev[e].msg.id>> IN
        /\ (/\ OnWinner(g, ev[e].parent)
+           /\ ev[e].msg.claimed = ev[e].author /\ ev[e].msg.preset = ""      \* honest messages only
            /\ c \in GS(g, ev[e].parent).members
            /\ ConvergedAt(c, g)
            /\ <<c, e>> \in hist.tried /\ <<c, e>> \notin hist.late)
@@ -841,6 +864,40 @@ Handled(c, e) ==
 C03_OnlyMembers == \A c \in Clients : \A k \in DOMAIN msgs[c] :
                       LET e == msgs[c][k].w IN
                       e \in DOMAIN ev => c \in GS(k[1], ev[e].parent).members
+
+\* --- C04: stored messages are bound to their authenticated sender and to their own content ---
+\* (a client's copy of a message it created itself is whatever it chose to store; the property is about what
+\*  events do to OTHER clients' stores)
+C04_Bound == \A c \in Clients : \A k \in DOMAIN msgs[c] :
+    LET r == msgs[c][k] IN
+    (r.w \in DOMAIN ev /\ ev[r.w].author # c) =>
+        /\ r.author = ev[r.w].author                       \* attributed to the MLS-authenticated sender
+        /\ \/ r.idok                                       \* id = hash of the stored fields
+           \/ /\ "RumorIdTrusted" \in Dev
+              /\ PrintT(<<"KNOWN-FINDING", "C04", "RumorIdTrusted", c, k[2]>>)
+\* action property: an event authenticated as x's never touches a stored message of another author
+C04_NoForeignWrite(c, e) ==
+    \A k \in DOMAIN msgs[c] :
+        (msgs[c][k].author # ev[e].author) =>
+            /\ k \in DOMAIN msgs'[c]
+            /\ \/ msgs'[c][k].author = msgs[c][k].author /\ msgs'[c][k].content = msgs[c][k].content /\ msgs'[c][k].w = msgs[c][k].w
+               \/ "RumorIdTrusted" \in Dev /\ ev[e].kind = "app" /\ ev[e].msg.preset = k[2]
+
+\* --- C05: only admins change roster / data ---
+\* every commit a client has applied that somebody else authored was authorised in the state it applies to;
+\* a client's own commits are covered by the OwnCommitNotValidated finding
+C05_ChainAuthorised == \A c \in Clients, g \in Groups : \A i \in DOMAIN cl[c][g].chain :
+    LET k == cl[c][g].chain[i] IN
+    \/ ValidCommit(k)
+    \/ ev[k].author = c /\ "OwnCommitNotValidated" \in Dev
+\* an admin's own operation never carries out a roster change merely proposed by someone else
+\* (sole exception: a member's own request to leave)
+C05_NoSweep == \A k \in DOMAIN ev :
+    (ev[k].kind = "commit" /\ k \notin withdrawn) =>
+        \A p \in ev[k].refs :
+            \/ p.k = "leave"
+            \/ /\ "AdminCommitSweepsProposals" \in Dev
+               /\ PrintT(<<"KNOWN-FINDING", "C05", "AdminCommitSweepsProposals", k, p.a, p.t>>)
 
 \* --- C06: a refused event has no effect (the dedup record is the only thing allowed to change) ---
 Refusals == {"Err", "Unprocessable", "PreviouslyFailed", "IgnoredProposal"}
